@@ -13,8 +13,10 @@ def run() -> int:
         print("java missing")
         return 2
     import repid
-    if not repid.__file__.startswith("/repo/"):
-        print("repid is not imported from /repo:", repid.__file__)
+    import os
+    repo = os.environ.get("VERIF_REPO", "/repo").rstrip("/") + "/"
+    if not repid.__file__.startswith(repo):
+        print(f"repid is not imported from {repo}:", repid.__file__)
         return 2
     for f in sorted(Path(tlc.SPEC).glob("*.tla")):
         if f.name.startswith("Trace_"):
